@@ -55,7 +55,7 @@ KERNELS = [
       bounds={0: (-9999, 9999), 1: (1, 12), 2: (1, 31)}, split=(0, {"quick": 8, "thorough": 32})),
     K("c01::k_inv", pre=day_in,
       claims=[("L3 to_epoch_day(to_date(n)) == n", lambda a, o: o.i == a[0])],
-      bounds={0: (MIN_DAY, MAX_DAY)}, split=(0, {"quick": 16, "thorough": 64})),
+      bounds={0: (MIN_DAY, MAX_DAY)}, split=(0, {"quick": 32, "thorough": 128}), timeout=240),
     K("c01::k_to_epoch_day", pre=valid,
       claims=[("epoch day of a valid date lies in [MIN_DAY, MAX_DAY]", lambda a, o: in_range(o.i, MIN_DAY, MAX_DAY))]),
     K("c01::k_weekday_step", pre=lambda a: in_range(a[0], MIN_DAY, MAX_DAY - 1),
